@@ -28,10 +28,10 @@ theorem lintFiles_violations (R : Rules F V E) (P : Policy) (s : St E) (fs : Lis
   simp [lintFiles, lintLoop_violations, lintLoop_store]
 
 /-- what the pooled run returns: the workers' per-file results in completion order, then the
-    parent's `finalize()` — on stores that have seen none of the files -/
+    parent's `finalize()` on the evidence the parent gathered from every file of the list -/
 theorem parallel_violations (R : Rules F V E) (P : Policy) (s : St E) (w : Nat) (fs done : List F)
     (hbig : ¬ fs.length < w * 2) (hne : fs ≠ []) :
-    (lintFilesParallel R P s w fs done).2 = done.flatMap R.perFile ++ R.finalize s.store := by
+    (lintFilesParallel R P s w fs done).2 = done.flatMap R.perFile ++ R.finalize (s.store ++ fs.flatMap R.collect) := by
   have : fs.isEmpty = false := by cases fs <;> simp_all
   have hw : worker R = R.perFile := funext (worker_eq R)
   simp [lintFilesParallel, this, hbig, hw]
@@ -60,33 +60,39 @@ theorem schedule_independent (R : Rules F V E) (P : Policy) (s : St E) (w : Nat)
   · rw [parallel_violations R P s w fs d1 hbig hne, parallel_violations R P s w fs d2 hbig hne]
     exact List.Perm.append (List.Perm.flatMap_right _ (h1.trans h2.symm)) (List.Perm.refl _)
 
-/-- **C07, the part that holds (partial)**: a fresh object run in parallel reports the same multiset
-    as the sequential run, for every worker count and completion order, *provided the cross-file
-    rules would report nothing beyond what they report on empty stores* — i.e. whenever no cross-file
-    finding (duplicate code, repeated string set) exists among the files.  The hypothesis is forced:
-    `crossfile_lost_witness` below shows the statement is false without it (finding F07a). -/
-theorem parallel_eq_sequential_partial (R : Rules F V E) (P : Policy) (w : Nat) (fs done : List F)
-    (hd : done.Perm fs)
-    (hcross : R.finalize (fs.flatMap R.collect) = R.finalize []) :
-    (lintFilesParallel R P fresh w fs done).2.Perm (lintFiles R P fresh fs).2 ∨ fs = [] := by
-  by_cases hne : fs = []
-  · exact Or.inr hne
-  left
+/-- **C07**: `--parallel` reports the same multiset of violations as the sequential run — per-file and
+    cross-file findings alike — for every rule plug-in set, every non-empty file list (repeated entries
+    included), every worker count, every completion order of the futures and every state the object was
+    in before. -/
+theorem parallel_eq_sequential (R : Rules F V E) (P : Policy) (s : St E) (w : Nat) (fs done : List F)
+    (hd : done.Perm fs) (hne : fs ≠ []) :
+    (lintFilesParallel R P s w fs done).2.Perm (lintFiles R P s fs).2 := by
   by_cases hbig : fs.length < w * 2
-  · rw [fallback_exact R P fresh w fs done hbig hne]
-  · rw [parallel_violations R P fresh w fs done hbig hne, lintFiles_violations]
-    simp only [fresh, List.nil_append, hcross]
+  · rw [fallback_exact R P s w fs done hbig hne]
+  · rw [parallel_violations R P s w fs done hbig hne, lintFiles_violations]
     exact List.Perm.append (List.Perm.flatMap_right _ hd) (List.Perm.refl _)
 
-/-- the exact shape of the difference: the pooled run reports the per-file findings plus
-    `finalize([])`, the sequential run the per-file findings plus `finalize(all evidence)` -/
-theorem parallel_difference (R : Rules F V E) (P : Policy) (w : Nat) (fs : List F)
-    (hbig : ¬ fs.length < w * 2) (hne : fs ≠ []) :
-    (lintFilesParallel R P fresh w fs fs).2 = fs.flatMap R.perFile ++ R.finalize [] ∧
-    (lintFiles R P fresh fs).2 = fs.flatMap R.perFile ++ R.finalize (fs.flatMap R.collect) := by
-  constructor
-  · rw [parallel_violations R P fresh w fs fs hbig hne]; rfl
-  · rw [lintFiles_violations]; rfl
+/-- the empty file list: the parallel entry point returns at once; the sequential one still finalizes,
+    which on a fresh object is what the rules report for no evidence at all (nothing, for the real rules) -/
+theorem parallel_empty (R : Rules F V E) (P : Policy) (s : St E) (w : Nat) (done : List F) :
+    (lintFilesParallel R P s w [] done).2 = [] ∧ (lintFiles R P s []).2 = R.finalize s.store := by
+  simp [lintFilesParallel, lintFiles, lintLoop]
+
+/-- … and the object is left in the same state by both (what a later call on it will see) -/
+theorem parallel_state_eq (R : Rules F V E) (P : Policy) (s : St E) (w : Nat) (fs done : List F) (hne : fs ≠ []) :
+    (lintFilesParallel R P s w fs done).1.store = (lintFiles R P s fs).1.store := by
+  by_cases hbig : fs.length < w * 2
+  · rw [fallback_exact R P s w fs done hbig hne]
+  · have : fs.isEmpty = false := by cases fs <;> simp_all
+    simp only [lintFilesParallel, this, hbig, lintFiles, lintLoop_store]
+    cases P.keepAfterFinalize <;> simp [lintLoop_store]
+
+/-- same exit code -/
+theorem parallel_exit_eq_sequential (R : Rules F V E) (P : Policy) (s : St E) (w : Nat) (fs done : List F)
+    (hd : done.Perm fs) (hne : fs ≠ []) :
+    exitCode (lintFilesParallel R P s w fs done).2 = exitCode (lintFiles R P s fs).2 := by
+  have h := parallel_eq_sequential R P s w fs done hd hne
+  simp [exitCode, h.isEmpty_eq]
 
 /-- same exit code whenever the multisets agree -/
 theorem exit_code_of_perm (a b : List V) (h : a.Perm b) : exitCode a = exitCode b := by
@@ -97,7 +103,7 @@ theorem exit_schedule_independent (R : Rules F V E) (P : Policy) (s : St E) (w :
     exitCode (lintFilesParallel R P s w fs d1).2 = exitCode (lintFilesParallel R P s w fs d2).2 :=
   exit_code_of_perm _ _ (schedule_independent R P s w fs d1 d2 h1 h2)
 
-/-! ## Finding F07a: cross-file evidence stays in the workers -/
+/-! ## Finding F07a (repaired by b158f57): cross-file evidence stayed in the workers -/
 
 /-- toy plug-in set over files = numbers: a per-file rule reporting odd numbers, and a DRY-like
     cross-file rule reporting every value that was collected more than once -/
@@ -106,14 +112,26 @@ def toy : Rules Nat String Nat where
   collect := fun n => [n / 10]
   finalize := fun es => (es.filter (fun e => es.count e > 1)).eraseDups.map (fun e => s!"dup {e}")
 
+/-- the pooled branch as it was: the duplicate is lost with 2 workers (pooled) and found with 3 (fallback);
+    as it is: found in both -/
 theorem crossfile_lost_witness :
     (lintFiles toy ⟨true⟩ fresh [10, 11, 20, 31]).2 = ["odd 11", "odd 31", "dup 1"] ∧
-    (lintFilesParallel toy ⟨true⟩ fresh 2 [10, 11, 20, 31] [31, 20, 11, 10]).2 = ["odd 31", "odd 11"] ∧
-    (lintFilesParallel toy ⟨true⟩ fresh 3 [10, 11, 20, 31] [31, 20, 11, 10]).2 = ["odd 11", "odd 31", "dup 1"] := by
+    (lintFilesParallelOld toy ⟨true⟩ fresh 2 [10, 11, 20, 31] [31, 20, 11, 10]).2 = ["odd 31", "odd 11"] ∧
+    (lintFilesParallelOld toy ⟨true⟩ fresh 3 [10, 11, 20, 31] [31, 20, 11, 10]).2 = ["odd 11", "odd 31", "dup 1"] ∧
+    (lintFilesParallel toy ⟨true⟩ fresh 2 [10, 11, 20, 31] [31, 20, 11, 10]).2 = ["odd 31", "odd 11", "dup 1"] := by
   decide +kernel
 
-/-- non-vacuity of `parallel_eq_sequential_partial` on the same toy (no duplicate evidence) -/
-example : toy.finalize ([10, 21, 30, 41].flatMap toy.collect) = toy.finalize [] := by decide +kernel
+/-- the old branch agreed with the sequential run exactly when the cross-file rules had nothing to add -/
+theorem old_parallel_eq_sequential_partial (R : Rules F V E) (P : Policy) (w : Nat) (fs done : List F)
+    (hd : done.Perm fs) (hne : fs ≠ [])
+    (hcross : R.finalize (fs.flatMap R.collect) = R.finalize []) :
+    (lintFilesParallelOld R P fresh w fs done).2.Perm (lintFiles R P fresh fs).2 := by
+  have he : fs.isEmpty = false := by cases fs <;> simp_all
+  have hw : worker R = R.perFile := funext (worker_eq R)
+  by_cases hbig : fs.length < w * 2
+  · simp [lintFilesParallelOld, he, hbig]
+  · simp only [lintFilesParallelOld, he, hbig, if_false, Bool.false_eq_true, hw, lintFiles_violations, fresh, List.nil_append, hcross]
+    exact List.Perm.append (List.Perm.flatMap_right _ hd) (List.Perm.refl _)
 
 /-! ## Transfer format -/
 
